@@ -54,4 +54,7 @@ theorem static_clear (hp : Heap) (sid l : Nat) : clear hp (.stat sid l) = .ok ()
 theorem no_write_through_static (hp : Heap) (sid l off : Nat) (s : Bytes) :
     writeBytes hp (.stat sid l) off s = .error .writeStatic := rfl
 
+/-- guards of `from_static_str` / `StaticBuffer::new` as in the source -/
+theorem guards : Gen.guardFromStaticStr = "<=" ∧ Gen.guardStaticNew = ">" := ⟨rfl, rfl⟩
+
 end LS.C10
